@@ -30,13 +30,20 @@ Rel(x, after) == /\ hist' = hist \o (IF last[x] = "" THEN <<>> ELSE <<last[x]>>)
 G(x, point) == x \o "@" \o point
 OnEndGate(e, ps) == IF ps = <<>> THEN "" ELSE G(e, "onend:" \o Head(ps))
 
-Allowed(x) == \A y \in Procs : (last[y] = "" /\ pc[y] # "done") => y = x
+(* User code (err.Error(), the panic value's Error()/String()) is a NATURAL gate: the harness passes values  *)
+(* whose methods wait for the scheduler.  In the "locked" shapes the process parked there holds span.mu, so  *)
+(* a released process that needs the lock really blocks (Blocked) until the holder is released.             *)
+LockWait == {"lock", "relock", "snaplock", "prelock", "precheck"}
+Blocked(y) == mu \notin {"none", y} /\ pc[y] \in LockWait
+Allowed(x) == \A y \in Procs : (last[y] = "" /\ pc[y] # "done" /\ ~Blocked(y)) => y = x
 
 SimNext ==
   \/ \E e \in Enders : Allowed(e) /\
         \/ ECall(e) /\ Rel(e, "")
         \/ ELock(e) /\ Rel(e, "")
-        \/ ECheck(e) /\ Rel(e, "")
+        \/ ECheck(e) /\ Rel(e, IF pc'[e] = "pfmt" THEN G(e, "panic.Format") ELSE "")
+        \/ EPanicUnlock(e) /\ Rel(e, G(e, "panic.Format"))
+        \/ (EPanicFormat(e) \/ EPanicRelock(e) \/ EPanicRecheck(e) \/ EPanicAddEvent(e)) /\ Rel(e, "")
         \* the return after a lost re-check has no instrumentation point of its own: the process runs on to @ret
         \/ EUnlockIgnored(e) /\ Rel(e, IF pc[e] = "unlockign" THEN G(e, "span.end.ignored") ELSE "")
         \/ EUnlockForTask(e) /\ Rel(e, G(e, "span.end.checked"))
@@ -53,7 +60,8 @@ SimNext ==
         \/ ERet(e) /\ Rel(e, G(e, "ret"))
   \/ \E m \in Mutators : Allowed(m) /\
         \/ MCall(m) /\ Rel(m, "")
-        \/ (MLock(m) \/ MCheck(m) \/ MApply(m) \/ MUnlock(m)) /\ Rel(m, "")
+        \/ (MPreCheck(m) \/ MCheck(m)) /\ Rel(m, IF pc'[m] = "user" THEN G(m, "err.Error") ELSE "")
+        \/ (MUser(m) \/ MLock(m) \/ MApply(m) \/ MApplyEv(m) \/ MUnlock(m)) /\ Rel(m, "")
         \/ MRet(m) /\ Rel(m, G(m, "ret"))
   \/ \E c \in Children : Allowed(c) /\
         \/ (CCall(c) \/ CLock(c) \/ CIncr(c) \/ CUnlock(c)) /\ Rel(c, "")
@@ -67,7 +75,8 @@ SimNext ==
 
 Finish == /\ ~fin /\ AllDone
           /\ PrintT("BEHAVIOUR " \o ToJson([script |-> hist, bad |-> mon.bad, overlap |-> winOverlap,
-                                            onEnd |-> mon.onEnd, parts |-> Cardinality(parts), child |-> childCount]))
+                                            onEnd |-> mon.onEnd, parts |-> Cardinality(parts), child |-> childCount,
+                                            evq |-> evs.q, evdrop |-> evs.drop, stable |-> SnapshotStable]))
           /\ fin' = TRUE /\ UNCHANGED <<vars, hist, last>>
 
 SimInit == /\ Init /\ hist = <<>> /\ fin = FALSE
